@@ -90,6 +90,7 @@ Definition run_glwe_pk (ps : list Z) (vs : list (list Z)) : option (list (list Z
   let sk := chunks n rank (v vs 1) in
   let us := stream (v vs 2) in
   let epk := v vs 3 in let u := v vs 4 in let es := chunks n (S rank) (v vs 5) in
+  if negb (p ps 7 =? b) then None (* glwe_encrypt_pk_internal: assert_eq!(pt.base2k(), pk.base2k()) *) else
   match enc_sk wb b n size rank nkp None sk us epk with
   | None => None
   | Some pk =>
